@@ -300,6 +300,36 @@ Fixpoint iv_xrun (s : vec * vec) (ops : list iv_xop) : list (res (list Z * list 
       end
   end.
 
+(** * final states and "names only object u" for stack and inplace_vector histories (independence theorems) *)
+Fixpoint st_exec (s : vec * vec) (ops : list st_op) : option (vec * vec) :=
+  match ops with
+  | [] => Some s
+  | o :: rest => match st_step s o with Ok (s', _) => st_exec s' rest | _ => None end
+  end.
+Fixpoint iv_xexec (s : vec * vec) (ops : list iv_xop) : option (vec * vec) :=
+  match ops with
+  | [] => Some s
+  | o :: rest => match iv_xstep s o with Ok (s', _) => iv_xexec s' rest | _ => None end
+  end.
+Definition st_touches_only (u : bool) (o : st_op) : bool :=
+  match o with
+  | StPush t _ | StPushRv t _ | StEmplace t _ | StPop t | StTop t | StSetTop t _ | StSize t | StCopyConstruct t
+  | StMoveConstruct t | StSelfAssign t | StFromContainer t _ | StFromContainerRv t _ => Bool.eqb t u
+  | StSwap | StSwapFree | StRelations | StCopyAssign _ | StMoveAssign _ => false
+  end.
+Definition iv_touches_only (u : bool) (o : iv_xop) : bool :=
+  match o with
+  | IvBase o =>
+      match o with
+      | IvTryPush t _ | IvUncheckedPush t _ | IvPop t | IvClear t | IvAt t _ | IvFront t | IvBack t
+      | IvCopyConstruct t | IvMoveConstruct t => Bool.eqb t u
+      end
+  | IvFill t _ _ | IvTryEmplace t _ | IvTryPushRv t _ | IvUncheckedEmplace t _ | IvUncheckedPushRv t _
+  | IvSelfCopyAssign t | IvSelfMoveAssign t | IvSetAt t _ _ | IvSetFront t _ | IvSetBack t _ | IvDataRead t
+  | IvMaxSize t | IvCopyIndep t _ _ => Bool.eqb t u
+  | IvCopyAssign _ | IvMoveAssign _ => false
+  end.
+
 (** * closed forms for long runs of appends (used by the extracted model in the correspondence run)
     The extracted model stores sizes and indices as unary numbers and recomputes the capacity as the length of the
     storage list at every call, so n appends cost about n * Capacity list steps: filling a vector of capacity 65536
